@@ -233,6 +233,9 @@ func c11Case(c *mc.Ctx, cfg ref.Cfg, it ref.Item, v ref.V, vs string, undoc stri
 				for i := range backing {
 					backing[i] ^= 0xff
 				}
+				if reflect.DeepEqual(d.Elem().Interface(), dst.Elem().Interface()) {
+					continue // (fast path; NaNs and the like take the rendering below)
+				}
 				if s := ref.Str(t, ref.FromReflect(t, d.Elem())); s != decoded {
 					c.Violation(pre+"decode-depends-on-input-alignment", fmt.Sprintf("input at offset %d of its backing array decodes to %s, at offset 0 to %s", off, s, decoded))
 					return
